@@ -245,6 +245,10 @@ def units(prop, tier):
 
 
 # ====================================================================================================================
+# STATUS ON THE REPAIRED TREE (fix 08989e78: `if not 0 <= expected_pt_len <= k - 11: return sentinel` and `if size < 0: return sentinel`):
+#   F1 and F2 below and decrypt.ensures.k11_sentinel verify now; the ONLY failing obligation is decrypt.ensures.k11_message (F3, k == 11,
+#   valid ciphertext of b'' gives the sentinel: the C decoder refuses len_em < 12), listed as `known` in /verif/known_findings.jsonl.
+#   The "baseline" in the mutant table below refers to the tree BEFORE the fix.
 # GENUINE FINDINGS (natively confirmed; obligations left registered).  All are in PKCS115_Cipher.decrypt and have one root: the
 # return value -1 of the C decoder ("arguments refused": n < 12, or expected > n - 11, or sentinel longer than em) is not handled
 # on the bytes-sentinel path (`output` is still all zero, `output[-1:]` == b'\x00' is returned), the C decoder refuses k == 11
